@@ -35,22 +35,29 @@ fn same_bytes<const N: usize>(a: &[u8; N], b: &[u8; N]) -> bool {
 
 /// compress == (spec_norm, spec_rle); the real validity test accepts it; expand gives
 /// back the input with a zero tail.  Raw length <= B, unrestricted content (family A).
-fn c07_kernel<const N: usize, const C: usize>(b: usize)
+fn c07_kernel<const N: usize, const C: usize, const B: usize>()
 where
     BlockHashSize<N>: ConstrainedBlockHashSize,
     ReconstructionBlockSize<N, C>: ConstrainedReconstructionBlockSize,
 {
-    let inp = any_syms::<N>(64);
+    let b = B;
+    let small = any_syms::<B>(64);
+    let mut inp = [0u8; N];
+    let mut i = 0;
+    while i < B {
+        inp[i] = small[i];
+        i += 1;
+    }
     let n = any_len(b);
     let mut bh: [u8; N] = kani::any(); // dirty outputs
     let mut rle: [u8; C] = kani::any();
     let mut len: u8 = kani::any();
     algorithms::compress_block_hash_with_rle::<N, C>(&mut bh, &mut rle, &mut len, &inp[..n]);
-    // (normalized part, RLE block) == (spec_norm, spec_rle)
+    // (normalized part, RLE block) == (spec_norm, spec_rle); the models run on the B-symbol prefix
     let mut en = [0u8; N];
-    let el = spec_norm::<N, N>(&inp, n, &mut en);
+    let el = spec_norm::<B, N>(&small, n, &mut en);
     let mut er = [0u8; C];
-    let rl = spec_rle::<N, C>(&inp, n, &mut er);
+    let rl = spec_rle::<B, C>(&small, n, &mut er);
     assert!(len as usize == el && same_bytes(&bh, &en));
     assert!(rl <= C && same_bytes(&rle, &er));
     assert!(algorithms::is_valid_rle_block_for_block_hash::<N, C>(&bh, &rle, len));
@@ -73,7 +80,7 @@ macro_rules! c07_kernel_harness {
         #[kani::proof]
         #[kani::unwind(66)]
         fn $name() {
-            c07_kernel::<$n, $c>($b)
+            c07_kernel::<$n, $c, $b>()
         }
     };
 }
@@ -277,7 +284,7 @@ where
 
 /// Every object route from a raw hash builds the same dual hash -- including re-initialising a
 /// previously used (dirty) object -- and that hash is valid.
-fn c07_object_build<const S1: usize, const S2: usize, const C1: usize, const C2: usize>(m: usize)
+fn c07_object_build<const S1: usize, const S2: usize, const C1: usize, const C2: usize>(m: usize, ctors: bool)
 where
     BlockHashSize<S1>: ConstrainedBlockHashSize,
     BlockHashSize<S2>: ConstrainedBlockHashSize,
@@ -288,14 +295,17 @@ where
     let raw = any_hash::<S1, S2, false>(m, m);
     let (l1, l2) = (raw.len_blockhash1 as usize, raw.len_blockhash2 as usize);
     let a = <FuzzyHashDualData<S1, S2, C1, C2>>::from_raw_form(&raw);
-    let b = <FuzzyHashDualData<S1, S2, C1, C2>>::from(raw);
     let mut c = FuzzyHashDualData::<S1, S2, C1, C2> { rle_block1: kani::any(), rle_block2: kani::any(), norm_hash: dirty_hash::<S1, S2, true>() };
     c.init_from_raw_form(&raw);
-    let d = <FuzzyHashDualData<S1, S2, C1, C2>>::new_from_internals_near_raw(raw.log_blocksize, &raw.blockhash1[..l1], &raw.blockhash2[..l2]);
-    let e = <FuzzyHashDualData<S1, S2, C1, C2>>::new_from_internals(block_size::from_log(raw.log_blocksize).unwrap(), &raw.blockhash1[..l1], &raw.blockhash2[..l2]);
-    assert!(same_dual(&a, &b) && same_dual(&a, &c) && same_dual(&a, &d) && same_dual(&a, &e));
+    assert!(same_dual(&a, &c));
     assert!(a.is_valid());
-    assert!(a.log_block_size() == raw.log_blocksize && a.block_size() as u64 == 3u64 << raw.log_blocksize);
+    if ctors {
+        let b = <FuzzyHashDualData<S1, S2, C1, C2>>::from(raw);
+        let d = <FuzzyHashDualData<S1, S2, C1, C2>>::new_from_internals_near_raw(raw.log_blocksize, &raw.blockhash1[..l1], &raw.blockhash2[..l2]);
+        let e = <FuzzyHashDualData<S1, S2, C1, C2>>::new_from_internals(block_size::from_log(raw.log_blocksize).unwrap(), &raw.blockhash1[..l1], &raw.blockhash2[..l2]);
+        assert!(same_dual(&a, &b) && same_dual(&a, &d) && same_dual(&a, &e));
+        assert!(a.log_block_size() == raw.log_blocksize && a.block_size() as u64 == 3u64 << raw.log_blocksize);
+    }
     kani::cover!(l1 == m && l2 == m && a.rle_block1[0] != 0);
     kani::cover!(a.rle_block2[0] == 0 && l2 == m);
 }
@@ -357,11 +367,19 @@ macro_rules! c07_object_harness {
             $f::<$s1, $s2, $c1, $c2>($m)
         }
     };
+    ($name:ident, $f:ident, $s1:literal, $s2:literal, $c1:literal, $c2:literal, $m:literal, $x:literal) => {
+        #[kani::proof]
+        #[kani::unwind(66)]
+        fn $name() {
+            $f::<$s1, $s2, $c1, $c2>($m, $x)
+        }
+    };
 }
-c07_object_harness!(c07_object_build_short_m5, c07_object_build, 64, 32, 16, 8, 5);
-c07_object_harness!(c07_object_build_short_m8, c07_object_build, 64, 32, 16, 8, 8);
-c07_object_harness!(c07_object_build_long_m8, c07_object_build, 64, 64, 16, 16, 8);
-c07_object_harness!(c07_object_build_short_m12, c07_object_build, 64, 32, 16, 8, 12);
+c07_object_harness!(c07_object_build_short_m4, c07_object_build, 64, 32, 16, 8, 4, false);
+c07_object_harness!(c07_object_build_short_m5, c07_object_build, 64, 32, 16, 8, 5, true);
+c07_object_harness!(c07_object_build_short_m8, c07_object_build, 64, 32, 16, 8, 8, true);
+c07_object_harness!(c07_object_build_long_m8, c07_object_build, 64, 64, 16, 16, 8, true);
+c07_object_harness!(c07_object_build_short_m12, c07_object_build, 64, 32, 16, 8, 12, true);
 c07_object_harness!(c07_object_lossless_short_m5, c07_object_lossless, 64, 32, 16, 8, 5);
 c07_object_harness!(c07_object_lossless_short_m8, c07_object_lossless, 64, 32, 16, 8, 8);
 c07_object_harness!(c07_object_lossless_long_m8, c07_object_lossless, 64, 64, 16, 16, 8);
